@@ -1,7 +1,13 @@
 // ---- real crypto data types from src/crypto.rs (derives reduced; structural Clone/Eq assumed where noted) ----
-//@take src/crypto.rs struct:KeyId drop_derives=Clone,Debug,PartialOrd,Ord
+//@take src/crypto.rs struct:KeyId drop_derives=Clone,Debug,PartialOrd,Ord,PartialEq
 impl KeyId {
     pub closed spec fn id(self) -> Seq<char> { self.0@ }
+}
+// assumed: the derived PartialEq of KeyId is structural equality
+impl PartialEq for KeyId { #[verifier::external_body] fn eq(&self, other: &Self) -> bool { unimplemented!() } }
+impl vstd::std_specs::cmp::PartialEqSpecImpl for KeyId {
+    open spec fn obeys_eq_spec() -> bool { true }
+    open spec fn eq_spec(&self, other: &Self) -> bool { *self == *other }
 }
 impl Clone for KeyId {
     #[verifier::external_body]
